@@ -478,6 +478,12 @@ class ClipSim:
             if r.get('empty_selection'):
                 out.stats['probe.empty_selection_raised'] += 1
                 return
+            if (name == 'reclip' and r['exc'] == 'ValueError' and str(msg).startswith("Times can't be serialized faithfully")
+                    and any(v['dtype'] in ('dt', 'td') for v in world.spec['vars'])):
+                # upstream limit, reproduced without emsarray: xarray's lazy datetime encoder refuses an all-NaT dask
+                # array with an integer on-disk type (the kept cells of this second clip were all blank after the first)
+                out.stats['probe.xarray_all_nat_datetime_not_encodable'] += 1
+                return
             out.violate('C08', 'clip-raised', r['frame'], detail)
             out.violate('C09', 'clip-raised', r['frame'], detail)
         elif name == 'load':
